@@ -1579,31 +1579,44 @@ vharness! {
     }
 }
 
-vharness! {
-    //@ props: C02
-    //@ tier: thorough
-    //@ functions: v5 decode::decode_packet, ConnectAck::decode, take_properties, Option<T>::read_value
-    //@ bounds: every body of 0..=9 arbitrary bytes
-    //@ unwindset: utf8_is_valid=6 spec_utf8=6 slice_eq=6 ConnectAck=6 spec_walk_props=6 decode_variable_length_cursor=6 encode_opt_props=3 encoded_size_opt_props=3 clone=3 expect_lp=6 spec_check_connack_props=8
-    //@ mem: 12  timeout: 1800
-    //@ desc: v5 CONNACK body: reserved acknowledge flags, unknown reason code, any named property malformation (unknown id, repeated once-only id, value not fitting, invalid UTF-8, length beyond the frame) and trailing bytes are errors
-    fn bd5_connack() unwind(11) {
-        let data: [u8; 9] = vk::any_bytes::<9>();
-        let len = vk::any_len(9);
-        let d = &data[..len];
-        let r = decode::decode_packet(vk::bytes_of(data, len), 0x20);
-        let mut named_bad = len < 3 || d[0] & 0xFE != 0 || !spec_connack_reason(d[1]);
-        if !named_bad {
-            match spec_walk_props(d, 2, P_CONNACK, REPEATABLE) {
-                Ok(end) => if end != len { named_bad = true; },
-                Err(()) => named_bad = true,
+macro_rules! bd5_connack {
+    ($name:ident, $n:expr) => {
+        vharness! {
+            fn $name() unwind(11) {
+                let data: [u8; $n] = vk::any_bytes::<$n>();
+                let len = vk::any_len($n);
+                let d = &data[..len];
+                let r = decode::decode_packet(vk::bytes_of(data, len), 0x20);
+                let mut named_bad = len < 3 || d[0] & 0xFE != 0 || !spec_connack_reason(d[1]);
+                if !named_bad {
+                    match spec_walk_props(d, 2, P_CONNACK, REPEATABLE) {
+                        Ok(end) => if end != len { named_bad = true; },
+                        Err(()) => named_bad = true,
+                    }
+                }
+                if named_bad {
+                    assert!(r.is_err());
+                }
+                vcover!(r.is_ok() && len == $n, "accepted at the length bound");
+                vcover!($n < 6 || (r.is_err() && !named_bad), "rejected for a property VALUE (e.g. receive maximum 0, flag byte > 1)");
+                vcover!(named_bad && len >= 5 && d[1] == 0 && d[0] == 0, "named malformation in the properties");
             }
         }
-        if named_bad {
-            assert!(r.is_err());
-        }
-        vcover!(r.is_ok() && len == 9, "accepted at the length bound");
-        vcover!(r.is_err() && !named_bad, "rejected for a property VALUE (e.g. receive maximum 0, flag byte > 1)");
-        vcover!(named_bad && len >= 5 && d[1] == 0 && d[0] == 0, "named malformation in the properties");
-    }
+    };
 }
+//@ props: C02
+//@ tier: quick
+//@ functions: v5 decode::decode_packet, ConnectAck::decode, take_properties, Option<T>::read_value
+//@ bounds: every body of 0..=5 arbitrary bytes (flags, reason, property length and up to two property bytes: every property id with a missing or one-byte value)
+//@ unwindset: utf8_is_valid=6 spec_utf8=6 slice_eq=6 ConnectAck=6 spec_walk_props=6 decode_variable_length_cursor=6 encode_opt_props=3 encoded_size_opt_props=3 clone=3 expect_lp=6 spec_check_connack_props=8
+//@ mem: 12  timeout: 900
+//@ desc: v5 CONNACK body, short bodies: never panics; reserved acknowledge flags, unknown reason code, unknown property id, a property whose value is cut off by the end of the section, trailing bytes are errors
+bd5_connack!(bd5_connack_5, 5);
+//@ props: C02
+//@ tier: thorough
+//@ functions: v5 decode::decode_packet, ConnectAck::decode, take_properties, Option<T>::read_value
+//@ bounds: every body of 0..=9 arbitrary bytes
+//@ unwindset: utf8_is_valid=6 spec_utf8=6 slice_eq=6 ConnectAck=6 spec_walk_props=6 decode_variable_length_cursor=6 encode_opt_props=3 encoded_size_opt_props=3 clone=3 expect_lp=6 spec_check_connack_props=8
+//@ mem: 12  timeout: 1800
+//@ desc: v5 CONNACK body: reserved acknowledge flags, unknown reason code, any named property malformation (unknown id, repeated once-only id, value not fitting, invalid UTF-8, length beyond the frame) and trailing bytes are errors
+bd5_connack!(bd5_connack, 9);
